@@ -285,3 +285,213 @@ func rootedAtFreshAlloc(v ssa.Value) bool {
 	}
 	return false
 }
+
+// ---- helper-aware search ----------------------------------------------------
+//
+// A rule anchored on function F looks for its constructs in F and in the
+// private helpers F calls (a refactoring may have moved a loop or a stage of F
+// into a helper); paths are compared as seen from F (an.PathIn: parameters of
+// single-call-site helpers denote the arguments they are bound to).
+
+// isLenOfPathIn is isLenOfPath with paths seen from anchor.
+func isLenOfPathIn(anchor *ssa.Function, path string) func(ssa.Value) bool {
+	return func(v ssa.Value) bool {
+		c, ok := v.(*ssa.Call)
+		return ok && an.IsCallTo(c, "builtin:len") && an.PathIn(c.Call.Args[0], anchor) == path
+	}
+}
+
+// findIndexLoopsGroup finds index loops whose bound satisfies pred in f or in
+// the helpers of f.
+func findIndexLoopsGroup(f *ssa.Function, bound func(ssa.Value) bool) []*an.IndexLoop {
+	var out []*an.IndexLoop
+	for _, g := range helperGroup(f, 3) {
+		out = append(out, findIndexLoops(g, bound)...)
+	}
+	return out
+}
+
+// callsToGroup lists calls to the named callees in f and its helpers.
+func callsToGroup(f *ssa.Function, names ...string) []ssa.CallInstruction {
+	var out []ssa.CallInstruction
+	for _, g := range helperGroup(f, 3) {
+		out = append(out, an.CallsTo(g, names...)...)
+	}
+	return out
+}
+
+// inGroup reports whether g belongs to the helper group of f.
+func inGroup(f, g *ssa.Function) bool {
+	for _, h := range helperGroup(f, 3) {
+		if h == g {
+			return true
+		}
+	}
+	return false
+}
+
+// funcAnywhere resolves an anchored function like fn, but when the exact
+// spec is not found looks for the unique function or method of the package
+// with the same base name (a function turned into a method, or moved to
+// another receiver type).
+func funcAnywhere(r *an.Run, rel, spec string) *ssa.Function {
+	if f := r.P.Func(rel, spec); f != nil {
+		r.Saw("func " + rel + "." + spec)
+		return f
+	}
+	base := spec
+	if i := strings.LastIndex(spec, "."); i >= 0 {
+		base = spec[i+1:]
+	}
+	var found []*ssa.Function
+	for _, g := range r.P.PkgFuncs(rel) {
+		if g.Name() == base && g.Parent() == nil {
+			found = append(found, g)
+		}
+	}
+	if len(found) == 1 {
+		r.Saw("func " + short(found[0]) + " (moved from " + spec + ")")
+		return found[0]
+	}
+	return fn(r, rel, spec)
+}
+
+// helperFailurePropagates: f calls helper g; whenever g returns a non-nil
+// error, f returns a failure (non-nil error) without doing anything else that
+// matters: the edge taken on err != nil leads only to failure exits.
+func helperFailurePropagates(f, g *ssa.Function) bool {
+	for _, c := range an.Calls(f) {
+		if an.StaticCallee(c) != g {
+			continue
+		}
+		call, ok := c.(*ssa.Call)
+		if !ok {
+			return false
+		}
+		res := g.Signature.Results()
+		if res.Len() == 0 || !an.IsErrorType(res.At(res.Len()-1).Type()) {
+			return false
+		}
+		var errV ssa.Value = call
+		if res.Len() > 1 {
+			ex := an.ExtractOf(call, res.Len()-1)
+			if len(ex) == 0 {
+				return false
+			}
+			errV = ex[0]
+		}
+		// returned directly
+		for _, ret := range an.Returns(f) {
+			if len(ret.Results) > 0 && ret.Results[len(ret.Results)-1] == errV {
+				return true
+			}
+		}
+		for _, cse := range an.EqCases(f, func(v ssa.Value) bool { return v == errV }) {
+			if !an.IsNilConst(cse.Key) {
+				continue
+			}
+			if an.FailureExit(cse.Else) {
+				return true
+			}
+		}
+	}
+	return false
+}
+
+// returnedLeaves lists the values f may return as result idx, following
+// `return helper(...)` / `x, err := helper(...); return x, err` into the
+// module helper's own returns (same result index), up to three levels.
+func returnedLeaves(f *ssa.Function, idx int, depth int) []ssa.Value {
+	var out []ssa.Value
+	for _, ret := range an.Returns(f) {
+		if idx >= len(ret.Results) {
+			continue
+		}
+		v := ret.Results[idx]
+		if ex, ok := v.(*ssa.Extract); ok && depth < 3 {
+			if c, ok := ex.Tuple.(*ssa.Call); ok {
+				if h := an.StaticCallee(c); h != nil && an.InModule(h) && h.Blocks != nil && ex.Index < h.Signature.Results().Len() {
+					out = append(out, returnedLeaves(h, ex.Index, depth+1)...)
+					continue
+				}
+			}
+		}
+		out = append(out, v)
+	}
+	return out
+}
+
+// matchLoop locates the loop of FileReplacer.Replace over the recorded
+// matches, in Replace itself or in a helper it delegates the node stage to.
+// It returns the anchor, the function that holds the loop, and the loop.
+func matchLoop(r *an.Run) (anchor, holder *ssa.Function, il *an.IndexLoop) {
+	f := fn(r, engine, "FileReplacer.Replace")
+	if f == nil {
+		return nil, nil, nil
+	}
+	ils := findIndexLoopsGroup(f, isLenOfPathIn(f, "fd.Matches"))
+	if len(ils) != 1 {
+		return f, nil, nil
+	}
+	return f, ils[0].Loop.Header.Parent(), ils[0]
+}
+
+// sliceAcross is an.BackSlice continued through parameter bindings: a
+// parameter of a single-call-site helper depends on the argument bound to it.
+func sliceAcross(v ssa.Value) map[ssa.Value]bool {
+	out := map[ssa.Value]bool{}
+	work := []ssa.Value{v}
+	for len(work) > 0 {
+		x := work[len(work)-1]
+		work = work[:len(work)-1]
+		for y := range an.BackSlice(x, an.SliceOpts{ThroughCalls: true, ThroughMemory: true}) {
+			if out[y] {
+				continue
+			}
+			out[y] = true
+			if p, ok := y.(*ssa.Parameter); ok {
+				if a := an.Actual(p); a != nil && !out[a] {
+					work = append(work, a)
+				}
+			}
+		}
+	}
+	return out
+}
+
+func derivesFromAcross(v ssa.Value, roots ...ssa.Value) bool {
+	sl := sliceAcross(v)
+	for _, p := range roots {
+		if p != nil && sl[p] {
+			return true
+		}
+	}
+	return false
+}
+
+// siteIn returns the instruction of f that stands for instruction in: in
+// itself when it is in f, otherwise the call in f to the helper (of f's
+// helper group) that contains it, transitively; nil when there is none.
+func siteIn(f *ssa.Function, in ssa.Instruction) ssa.Instruction {
+	g := in.Parent()
+	cur := in
+	for steps := 0; steps < 4 && g != f; steps++ {
+		var next ssa.Instruction
+		for _, h := range helperGroup(f, 3) {
+			for _, c := range an.Calls(h) {
+				if an.StaticCallee(c) == g {
+					next = c
+				}
+			}
+		}
+		if next == nil {
+			return nil
+		}
+		cur = next
+		g = cur.Parent()
+	}
+	if g != f {
+		return nil
+	}
+	return cur
+}
